@@ -4,7 +4,11 @@ package varmq
 // every episode draws its own sizes, op mix, fault kinds and scheduler
 // parameters; DESIGN §4.1, §5).
 
-import "github.com/goptics/varmq/internal/simrt"
+import (
+	"os"
+
+	"github.com/goptics/varmq/internal/simrt"
+)
 
 type wop struct{ K, W int }
 
@@ -21,6 +25,7 @@ type Profile struct {
 	Adds    [2]int
 	BatchPct int
 	BatchMax int
+	BatchMin int
 	PrioPct int
 	GatedPct, DelayPct, MaxDelay int
 	ErrPct, PanicPct int
@@ -49,6 +54,9 @@ type Profile struct {
 	MaxSteps int
 	SettleProducerPct int
 	AdFaults bool
+	PreloadPct int // percent (distributed kinds): 1-4 jobs already sit in the backend when the consumer binds
+	WarmPct  int // percent: a warm-up burst fills the idle pool first, every other task starts after it settled
+	AckStall []int // percent choices for stalled acknowledgements on adapter queues
 	Tunes   []int
 }
 
@@ -110,7 +118,7 @@ func simParams(r *simrt.Rand, c *Cfg, pf *Profile) {
 // generate builds a configuration and a program from a profile.
 func generate(r *simrt.Rand, pf *Profile) (Cfg, *Program) {
 	var c Cfg
-	if *fTier == "thorough" && pf.Adds[1] < 100 && r.Chance(35) {
+	if *fTier == "thorough" && pf.Adds[1] < 100 && pf.BatchMin == 0 && r.Chance(35) {
 		// thorough tier: a share of larger programs (more producers, longer scripts)
 		cp := *pf
 		pf = &cp
@@ -148,6 +156,9 @@ func generate(r *simrt.Rand, pf *Profile) (Cfg, *Program) {
 			qc.FEnq = pick(r, []int{0, 0, 10, 30})
 			qc.FDeq = pick(r, []int{0, 0, 10, 30})
 			qc.FAck = pick(r, []int{0, 0, 10, 30})
+		}
+		if k > qkPrio && len(pf.AckStall) > 0 {
+			qc.FAckStall = pick(r, pf.AckStall)
 		}
 		if k >= qkDist {
 			qc.NDelay = pick(r, []int{0, 1, 3})
@@ -200,7 +211,7 @@ func generate(r *simrt.Rand, pf *Profile) (Cfg, *Program) {
 			if memq && r.Chance(pf.BatchPct) {
 				b := p.NBatches
 				p.NBatches++
-				sz := r.Intn(pf.BatchMax + 1)
+				sz := pf.BatchMin + r.Intn(pf.BatchMax-pf.BatchMin+1)
 				var subs []int
 				for x := 0; x < sz; x++ {
 					subs = append(subs, newSub(q, b))
@@ -214,6 +225,13 @@ func generate(r *simrt.Rand, pf *Profile) (Cfg, *Program) {
 			}
 		}
 		p.Tasks = append(p.Tasks, ops)
+	}
+	for q := 0; q < nq; q++ {
+		if c.Queues[q].Kind >= qkDist && r.Chance(pf.PreloadPct) {
+			for k, n := 0, 1+r.Intn(4); k < n; k++ {
+				p.Subs[newSub(q, -1)].Pre = true
+			}
+		}
 	}
 	nsub := len(p.Subs)
 	anySub := func() int {
@@ -342,6 +360,21 @@ func generate(r *simrt.Rand, pf *Profile) (Cfg, *Program) {
 		ops = append(ops, Op{K: opSettle, A: 2})
 		p.Tasks = append(p.Tasks, ops)
 	}
+	// warm-up: a burst of plain jobs runs to completion first, so that the rest of the
+	// program meets a pool full of idle workers (shrinking, expiry and reuse paths)
+	if nq > 0 && r.Chance(pf.WarmPct) {
+		var ops []Op
+		for k, n := 0, c.Conc+r.Intn(3); k < n; k++ {
+			sn := len(p.Subs)
+			p.Subs = append(p.Subs, SubT{N: sn, Q: 0, Batch: -1, Delay: 1 + r.Intn(2)}) // sleeping jobs overlap: one idle worker each afterwards
+			ops = append(ops, Op{K: opAdd, Q: 0, Subs: []int{sn}})
+		}
+		ops = append(ops, Op{K: opSettle}, Op{K: opWarmDone})
+		for i := range p.Tasks {
+			p.Tasks[i] = append([]Op{{K: opAwaitWarm}}, p.Tasks[i]...)
+		}
+		p.Tasks = append([][]Op{ops}, p.Tasks...)
+	}
 	// the step cap is a livelock detector, not a budget: scale it with the program
 	// (worst case ~1500 steps per job with every statement yield enabled; x4 margin)
 	if n := 60000 + 6000*len(p.Subs); n > c.MaxSteps {
@@ -394,6 +427,35 @@ func baseProfile() *Profile {
 	}
 }
 
+// bigBatch turns a rare episode into one batch that is larger than any fixed buffer size
+// a batch stream could be given (1024 is the first segment size of the built-in queues):
+// every item publishes a value, nobody reads the stream, one task waits for the batch.
+func bigBatch(pf *Profile, r *simrt.Rand, tier string) bool {
+	n := 1500
+	if tier == "thorough" {
+		n = 600
+	}
+	if os.Getenv("VERIF_BIGBATCH") != "" { // development aid: every episode
+		n = 1
+	}
+	if r.Intn(n) != 0 {
+		return false
+	}
+	pf.WKinds = []int{wkErr, wkResult}
+	pf.QKinds = memKinds
+	pf.Conc = []int{2, 4}
+	pf.Producers, pf.Adds = [2]int{1, 1}, [2]int{1, 1}
+	pf.BatchPct, pf.BatchMin, pf.BatchMax = 100, 1025, 1300
+	pf.ErrPct, pf.PanicPct = 100, 0
+	pf.DelayPct, pf.GatedPct, pf.CloseInFnPct = 0, 0, 0
+	pf.ReaderPct, pf.BatchWaitPct = 0, 100
+	pf.Ctrl, pf.CtrlOps = nil, [2]int{0, 0}
+	pf.Cancellers, pf.Waiters, pf.Samplers = [2]int{0, 0}, [2]int{0, 0}, [2]int{0, 0}
+	pf.Releaser, pf.WarmPct = 0, 0
+	pf.SmallChunksPct = 50
+	return true
+}
+
 func init() {
 	// C01 — exactly once
 	register(&Property{ID: "C01", Rule: "episodes in which >=1 job was accepted and >=1 context switch happened inside library code; distinct = hash of (context-switch site sequence, program, configuration)",
@@ -413,6 +475,8 @@ func init() {
 			pf.Cancel = []wop{{opCloseJob, 6}, {opPurge, 2}, {opCloseQueue, 1}}
 			pf.Releaser = 50
 			pf.ErrReaderPct = 30
+			pf.WarmPct = 25
+			pf.PreloadPct = 40
 			if tier == "thorough" && r.Intn(1000) < 4 {
 				// bursts across the real segment sizes (1024, 1536, ...)
 				pf.SmallChunksPct = 0
@@ -444,6 +508,15 @@ func init() {
 			pf.Cancel = []wop{{opCloseJob, 6}, {opPurge, 1}}
 			pf.Releaser = 100
 			pf.ErrReaderPct = 50
+			pf.WarmPct = 25
+			if r.Chance(25) {
+				// external backend with slow/stalled acknowledgements: a pool goroutine that is
+				// still acknowledging holds its slot, every other job must keep moving
+				pf.WKinds = []int{wkPlain}
+				pf.QKinds = []int{qkPers, qkPersPrio}
+				pf.AckStall = []int{0, 30, 60}
+				pf.Ratio = []int{0, 1, 50, 100, 100}
+			}
 			return generate(r, pf)
 		},
 		NonTrivial: func(ep *Episode) bool { return countAccepted(ep) >= 2 },
@@ -463,6 +536,7 @@ func init() {
 			pf.Cancellers, pf.CancelOps = [2]int{0, 1}, [2]int{1, 3}
 			pf.Cancel = []wop{{opCloseJob, 6}, {opPurge, 2}, {opCloseQueue, 1}}
 			pf.Releaser = 70
+			bigBatch(pf, r, tier)
 			return generate(r, pf)
 		},
 		NonTrivial: func(ep *Episode) bool {
@@ -605,6 +679,7 @@ func init() {
 			pf.CtrlOps = [2]int{1, 6}
 			pf.CtrlGapPct = 40
 			pf.Releaser = 100
+			pf.WarmPct = 25
 			return generate(r, pf)
 		},
 		NonTrivial: func(ep *Episode) bool { return ep.W.maxInflight >= ep.W.effConc(ep.W.cfg.Conc) || ep.W.maxInflight >= 2 },
@@ -652,6 +727,7 @@ func init() {
 			pf.Cancel = []wop{{opPurge, 3}, {opCloseQueue, 3}, {opYield, 2}}
 			pf.Samplers, pf.SampleOps = [2]int{0, 1}, [2]int{1, 4}
 			pf.Sample = []wop{{opBatchPendingAny, 5}, {opYield, 2}}
+			bigBatch(pf, r, tier)
 			return generate(r, pf)
 		},
 		NonTrivial: func(ep *Episode) bool {
